@@ -144,9 +144,17 @@ func (g *Generator) Adjust(adjust *nri.ContainerAdjustment) error {
 func (g *Generator) AdjustEnv(env []*nri.KeyValue) {
 	mod := map[string]*nri.KeyValue{}
 
+	// Removals first, then sets: a variable that is both removed and set in
+	// one adjustment ends up set, whatever the order of the entries.
 	for _, e := range env {
-		key, _ := nri.IsMarkedForRemoval(e.Key)
-		mod[key] = e
+		if key, marked := nri.IsMarkedForRemoval(e.Key); marked {
+			mod[key] = e
+		}
+	}
+	for _, e := range env {
+		if key, marked := nri.IsMarkedForRemoval(e.Key); !marked {
+			mod[key] = e
+		}
 	}
 
 	// first modify existing environment
@@ -352,12 +360,19 @@ func (g *Generator) AdjustOomScoreAdj(score *nri.OptionalInt) {
 
 // AdjustDevices adjusts the (Linux) devices in the OCI Spec.
 func (g *Generator) AdjustDevices(devices []*nri.LinuxDevice) {
+	// Removals first, then sets: a device that is both removed and set in
+	// one adjustment ends up set, whatever the order of the entries.
+	for _, d := range devices {
+		if key, marked := d.IsMarkedForRemoval(); marked {
+			g.RemoveDevice(key)
+		}
+	}
 	for _, d := range devices {
 		key, marked := d.IsMarkedForRemoval()
-		g.RemoveDevice(key)
 		if marked {
 			continue
 		}
+		g.RemoveDevice(key)
 		g.AddDevice(d.ToOCI())
 		major, minor, access := &d.Major, &d.Minor, d.AccessString()
 		g.AddLinuxResourcesDevice(true, d.Type, major, minor, access)
@@ -401,10 +416,17 @@ func (g *Generator) AdjustMounts(mounts []*nri.Mount) error {
 		return nil
 	}
 
-	propagation := ""
+	// Removals first, then sets: a mount that is both removed and set in
+	// one adjustment ends up set, whatever the order of the entries.
 	for _, m := range mounts {
 		if destination, marked := m.IsMarkedForRemoval(); marked {
 			g.RemoveMount(destination)
+		}
+	}
+
+	propagation := ""
+	for _, m := range mounts {
+		if _, marked := m.IsMarkedForRemoval(); marked {
 			continue
 		}
 
